@@ -528,25 +528,49 @@ def check_schedule(ctx):
         # no dependency graph at all: the two-sweep schedule  collect + distribute  over a rooted traversal D of the tree:
         #   [(b, a) for a, b in reversed(D)] + D        (children report before their parent does, then parents inform children)
         if isinstance(R, ast.BinOp) and isinstance(R.op, ast.Add):
-            up, down = R.left, R.right
-            d0 = strip_wrappers(down)
-            trav = isinstance(d0, ast.Call) and U(d0.func).split('.')[-1] in ('dfs_edges', 'bfs_edges') and d0.args and T(d0.args[0]) == 'self.tree'
-            b = Builder.of_comprehension(up)
-            if trav and b is not None and len(b.gens) == 1 and not b.conds:
-                elt, gens, conds = b.canon()
-                src = strip_wrappers(b.gens[0][1])
-                rev = isinstance(src, ast.Call) and U(src.func) == 'reversed' and len(src.args) == 1 and T(strip_wrappers(src.args[0])) == T(d0)
-                sliced = isinstance(src, ast.Subscript) and T(src.slice) == '::-1' and T(strip_wrappers(src.value)) == T(d0)
-                plain = T(src) == T(d0)
-                flipped = elt == '(_g0_1,_g0_0)'
-                if flipped and (rev or sliced or plain):
-                    ctx.ob('schedule', fi, fi.node, rev or sliced,
-                           'two-sweep schedule: the collect sweep must run over the traversal `%s` in REVERSE (every clique hears from its children '
-                           'before it reports to its parent), followed by the traversal itself; the collect sweep iterates `%s`' % (U(d0)[:60], U(src)[:80]),
-                           construct='collect / distribute schedule')
-                    ctx.ob('schedule', fi, fi.node, True, 'one message per direction of every tree edge (each traversal edge once in each sweep)',
-                           construct='message set of the schedule')
-                    return
+            def nf(e):
+                """(flipped, reversed, traversal text) of a sweep expression, or None"""
+                e = strip_wrappers(e)
+                if isinstance(e, ast.Call) and U(e.func).split('.')[-1] in ('dfs_edges', 'bfs_edges') and e.args and T(e.args[0]) == 'self.tree':
+                    return False, False, T(e)
+                if isinstance(e, ast.Call) and U(e.func) == 'reversed' and len(e.args) == 1:
+                    r_ = nf(e.args[0])
+                    return None if r_ is None else (r_[0], not r_[1], r_[2])
+                if isinstance(e, ast.Subscript) and T(e.slice) == '::-1':
+                    r_ = nf(e.value)
+                    return None if r_ is None else (r_[0], not r_[1], r_[2])
+                b_ = Builder.of_comprehension(e)
+                if b_ is not None and len(b_.gens) == 1 and not b_.conds:
+                    elt_, gens_, conds_ = b_.canon()
+                    r_ = nf(b_.gens[0][1])
+                    if r_ is None:
+                        return None
+                    if elt_ == '(_g0_1,_g0_0)':
+                        return not r_[0], r_[1], r_[2]
+                    if elt_ == '(_g0_0,_g0_1)':
+                        return r_
+                return None
+            up, down = nf(R.left), nf(R.right)
+            if up is not None and down is not None and up[2] == down[2]:
+                both = up[0] != down[0]
+                ctx.ob('schedule', fi, fi.node, both, 'one message per direction of every tree edge: the two sweeps run over one rooted traversal `%s`, one of '
+                       'them with every edge turned round; here %s' % (up[2][:60], 'they do' if both else 'both sweeps send in the same direction'),
+                       construct='message set of the schedule')
+                if both:
+                    # the sweep against the traversal (child -> parent) is the collect sweep and must come first, deepest edges first
+                    col, dis = (up, down) if up[0] else (down, up)
+                    first = up[0]
+                    ok = first and col[1] and not dis[1]
+                    why = []
+                    if not first:
+                        why.append('the sweep towards the root must come first')
+                    if not col[1]:
+                        why.append('the collect sweep must run over the traversal in REVERSE (every clique hears from its children before it reports to its parent)')
+                    if dis[1]:
+                        why.append('the distribute sweep must run in traversal order (a clique hears from its parent before it informs its children); it runs in reverse')
+                    ctx.ob('schedule', fi, fi.node, ok, 'two-sweep schedule over the traversal `%s`: collect in reverse, then distribute in traversal order%s'
+                           % (up[2][:60], '' if ok else ': ' + '; '.join(why)), construct='collect / distribute schedule')
+                return
     if len(graphs) != 1:
         raise AnalysisError('mp_order: expected one dependency graph (receiver of add_edges_from), found %s' % graphs)
     G = graphs[0]
